@@ -148,7 +148,7 @@ def lake_build(targets):
     return rc == 0, out
 
 
-THEOREM_RE = re.compile(r"^(?:@\[[^\]]*\]\s*)?(?:private\s+|protected\s+)?theorem\s+([A-Za-z_][A-Za-z0-9_'.]*)", re.M)
+THEOREM_RE = re.compile(r"^(?:@\[[^\]]*\]\s*)?(?:private\s+|protected\s+)?theorem\s+([^\s\(\{\[:]+)", re.M)
 NAMESPACE_RE = re.compile(r"^namespace\s+(\S+)", re.M)
 
 
@@ -235,15 +235,15 @@ def check_proofs(pid, thorough):
         rc, out = sh(["lake", "env", "lean", audit], cwd=LEAN, timeout=900)
         cur = None
         for line in out.split("\n"):
-            m = re.match(r"'([^']+)' depends on axioms: \[(.*)\]", line)
-            m2 = re.match(r"'([^']+)' does not depend on any axioms", line)
+            m = re.match(r"'(.+)' depends on axioms: \[(.*)\]", line)
+            m2 = re.match(r"'(.+)' does not depend on any axioms", line)
             if m:
                 res["axioms"][m.group(1)] = [a.strip() for a in m.group(2).split(",") if a.strip()]
                 cur = m.group(1) if not line.rstrip().endswith("]") else None
             elif m2:
                 res["axioms"][m2.group(1)] = []
         # multi-line axiom lists
-        for m in re.finditer(r"'([^']+)' depends on axioms: \[([^\]]*)\]", out, re.S):
+        for m in re.finditer(r"^'([^\n]+)' depends on axioms: \[([^\]]*)\]", out, re.S | re.M):
             res["axioms"][m.group(1)] = [a.strip() for a in m.group(2).replace("\n", " ").split(",") if a.strip()]
         for t, _ in thms:
             if t not in res["axioms"]:
